@@ -221,7 +221,25 @@ func (obj *SparseReal64Vector) Slice(i, j int) Vector {
   return obj.SLICE(i, j)
 }
 func (obj *SparseReal64Vector) Swap(i, j int) {
-  obj.values[i], obj.values[j] = obj.values[j], obj.values[i]
+  if i < 0 || i >= obj.Dim() || j < 0 || j >= obj.Dim() {
+    panic("index out of bounds")
+  }
+  vi, oki := obj.values[i]
+  vj, okj := obj.values[j]
+  switch {
+  case oki && okj:
+    obj.values[i], obj.values[j] = vj, vi
+  case oki:
+    obj.values[j] = vi
+    delete(obj.values, i)
+    obj.indexDelete(i)
+    obj.indexInsert(j)
+  case okj:
+    obj.values[i] = vj
+    delete(obj.values, j)
+    obj.indexDelete(j)
+    obj.indexInsert(i)
+  }
 }
 func (obj *SparseReal64Vector) AppendScalar(scalars ...Scalar) Vector {
   r := obj.Clone()
